@@ -136,6 +136,13 @@ def history_pair(kind: int, si: int) -> None:
     with hlib.native():
         hlib_reset()
         _first(p, kind, t1)
+        same = None
+        if kind in (0, 1, 2):
+            # the very same text again, through the same entry point and through the other one
+            for c in (('parse', 'eval') if kind == 0 else ('eval', 'parse')):
+                if outcome(p, c, TEXTS[t1]) != EXPECTED[(c, t1)]:
+                    same = c
+                    break
         got = outcome(p, c2, TEXTS[t2])
         # post-states of real histories lie inside the havoc domain of the obligation above
         dom = p.lex.lexpos >= 0 and p.lex.lineno >= 1 and isinstance(getattr(p.lex, 'paren_count', 0), int)
@@ -145,6 +152,58 @@ def history_pair(kind: int, si: int) -> None:
     assert glob == GLOBALS0, "a call left process-global state changed (decimal context %r, was %r)" % (glob, GLOBALS0)
     with hlib.native():
         pass
+    assert same is None, "after %d/%r, %s of the SAME text again differs from a fresh parser" % (kind, TEXTS[t1], same)
     assert dom, "a real history leaves the lexer outside the havoc domain (havoc obligation would not cover it)"
     assert got == EXPECTED[(c2, t2)], "after %d/%r, %s(%r) differs from a fresh parser" % (kind, TEXTS[t1], c2, TEXTS[t2])
+    hlib.done()
+
+
+# a names mapping the host keeps across evaluations (lambdas defined by one program are called by later ones)
+SCRIPTS = [
+    ["f = x => [1, 2]", "push(f(0), 3)", "f(0)"],
+    ["f = x => {'k': [1]}", "f(0)['k'].push(2)", "f(0)"],
+    ["f = x => [[1], [2]]", "f(0)[0].push(9)\nf(0).pop()", "f(0)"],
+    ["f = x => [x, [1]]", "y = f(5)\ny[1].push(7)\ninsert(f(6), 0, 0)", "f(2)"],
+    ["f = x => 'ab'\ng = x => 10", "f(0) + 'c'\ng(0) + 1", "[f(0), g(0)]"],
+    ["f = x => sorted([3, 1, 2])", "f(0).push(0)", "f(0)"],
+]
+_SKIP = {}
+with hlib.native():
+    for _si, _sc in enumerate(SCRIPTS):
+        _nm = {}
+        _p = SqParser()
+        try:
+            _p.eval(_sc[0], _nm)
+            _SKIP[_si] = ('ok', repr(_p.eval(_sc[2], _nm)))
+        except Exception as _e:
+            _SKIP[_si] = ('err', type(_e).__name__)
+
+
+def persisted_names(si: int, cached: bool, other_mapping: bool) -> None:
+    """
+    pre: 0 <= si < 6
+    post: True
+    """
+    # define / use-and-mutate-the-result / use again, with the host's names mapping kept across the three evaluations:
+    # the last result is what it would have been without the middle step
+    hlib.enter(locals())
+    si = hlib.concrete(si, 0, 5)
+    cached = True if cached else False
+    with hlib.native(unwalled=True):
+        p = SqParser(parse_cache={}) if cached else SqParser()
+    with hlib.native():
+        nm = {}
+        sc = SCRIPTS[si]
+        res = None
+        try:
+            p.eval(sc[0], nm)
+            try:
+                p.eval(sc[1], dict(nm) if other_mapping else nm)
+            except Exception:
+                pass
+            res = ('ok', repr(p.eval(sc[2], nm)))
+        except Exception as e:
+            res = ('err', type(e).__name__)
+    if True:
+        assert res == _SKIP[si], "script %r: the last evaluation gives %r, without the middle step it gives %r: a literal's value survived between evaluations" % (sc, res, _SKIP[si])
     hlib.done()
